@@ -24,7 +24,10 @@ type State struct {
 	SortedV  map[string][]string        // values read at each Ascend callback
 	Keys     map[string]int64           // QueryKey result: offset, or -1 when it returned an error
 	KeyErr   []string
+	Focus    map[uint32]bool
 }
+
+func (st *State) focused(off uint32) bool { return st.Focus == nil || st.Focus[off] }
 
 // schemaView is what the dump needs to know about the collection.
 type schemaView struct {
@@ -32,16 +35,19 @@ type schemaView struct {
 	KeyCol string
 	Idx    []IndexSpec
 	Sorted []SortSpec
-	Keys   []string // key alphabet to look up
+	Keys   []string        // key alphabet to look up
+	Focus  map[uint32]bool // nil = every row; otherwise column values are read only for these rows (dense layouts)
 }
 
+func (sv schemaView) focused(off uint32) bool { return sv.Focus == nil || sv.Focus[off] }
+
 func (m *Model) view(keys []string) schemaView {
-	return schemaView{Cols: m.Cols, KeyCol: m.KeyCol, Idx: m.Idx, Sorted: m.Sorted, Keys: keys}
+	return schemaView{Cols: m.Cols, KeyCol: m.KeyCol, Idx: m.Idx, Sorted: m.Sorted, Keys: keys, Focus: m.Focus}
 }
 
 func dumpState(c *column.Collection, sv schemaView) *State {
 	st := &State{Cells: map[string]map[uint32]Val{}, Idx: map[string][]uint32{}, IdxBool: map[string]map[uint32]bool{},
-		Sorted: map[string][]uint32{}, SortedV: map[string][]string{}, Keys: map[string]int64{}}
+		Sorted: map[string][]uint32{}, SortedV: map[string][]string{}, Keys: map[string]int64{}, Focus: sv.Focus}
 	for _, col := range sv.Cols {
 		st.Cells[col.Name] = map[uint32]Val{}
 	}
@@ -67,6 +73,9 @@ func dumpState(c *column.Collection, sv schemaView) *State {
 			}
 			last = int64(idx)
 			st.Rows = append(st.Rows, idx)
+			if !sv.focused(idx) {
+				return
+			}
 			cs := make([]cell, len(sv.Cols))
 			for i, col := range sv.Cols {
 				if col.Kind == KKey {
@@ -79,6 +88,9 @@ func dumpState(c *column.Collection, sv schemaView) *State {
 		})
 		// pass 2: point reads through Row accessors and Row.Any
 		for _, idx := range st.Rows {
+			if !sv.focused(idx) {
+				continue
+			}
 			txn.QueryAt(idx, func(r column.Row) error {
 				if r.Index() != idx {
 					st.ReadErr = append(st.ReadErr, fmt.Sprintf("QueryAt(%d): Row.Index()=%d", idx, r.Index()))
@@ -260,8 +272,8 @@ func cmpValues(st *State, m *Model) string {
 		got := st.Cells[c.Name]
 		want := m.Cells[c.Name]
 		for _, off := range st.Rows {
-			if !m.Live[off] {
-				continue // reported by cmpLive
+			if !m.Live[off] || !st.focused(off) {
+				continue // reported by cmpLive / not read in a focused dump
 			}
 			gv, gok := got[off]
 			wv, wok := want[off]
@@ -294,6 +306,18 @@ func cmpIndexes(st *State, sv schemaView) string {
 			if v, ok := st.Cells[ix.Col][off]; ok && ix.P.onVal(col.Kind, v) {
 				want = append(want, off)
 			}
+		}
+		if st.Focus != nil {
+			var got []uint32
+			for _, off := range st.Idx[ix.Name] {
+				if st.Focus[off] {
+					got = append(got, off)
+				}
+			}
+			if !sameRows(got, want) {
+				return fmt.Sprintf("index %s on %s(%s) pred %s: With() restricted to the focused rows %s", ix.Name, ix.Col, col.Kind, predString(ix.P), rowsDiff(got, want))
+			}
+			continue
 		}
 		if !sameRows(st.Idx[ix.Name], want) {
 			return fmt.Sprintf("index %s on %s(%s) pred %s: With() %s", ix.Name, ix.Col, col.Kind, predString(ix.P), rowsDiff(st.Idx[ix.Name], want))
@@ -336,6 +360,16 @@ func cmpSorted(st *State, sv schemaView) string {
 			if _, ok := st.Cells[sx.Col][off]; ok {
 				want = append(want, off)
 			}
+		}
+		if st.Focus != nil { // dense layouts: judge the focused sub-sequence of the Ascend order
+			var fr []uint32
+			var fv []string
+			for i, r := range rows {
+				if st.Focus[r] {
+					fr, fv = append(fr, r), append(fv, vals[i])
+				}
+			}
+			rows, vals = fr, fv
 		}
 		sorted := append([]uint32(nil), rows...)
 		sort.Slice(sorted, func(i, j int) bool { return sorted[i] < sorted[j] })
@@ -402,6 +436,9 @@ func cmpStates(a, b *State, an, bn string, sv schemaView) string {
 	}
 	for _, c := range sv.Cols {
 		for _, off := range a.Rows {
+			if !a.focused(off) {
+				continue
+			}
 			av, aok := a.Cells[c.Name][off]
 			bv, bok := b.Cells[c.Name][off]
 			if aok != bok || (aok && !valEqual(c.Kind, av, bv)) {
@@ -410,7 +447,7 @@ func cmpStates(a, b *State, an, bn string, sv schemaView) string {
 		}
 	}
 	for _, ix := range sv.Idx {
-		if !sameRows(a.Idx[ix.Name], b.Idx[ix.Name]) {
+		if !sameRows(a.Idx[ix.Name], b.Idx[ix.Name]) { // the complete With() sequences, also in a focused dump
 			return fmt.Sprintf("index %s: %s vs %s: %s", ix.Name, an, bn, rowsDiff(a.Idx[ix.Name], b.Idx[ix.Name]))
 		}
 	}
